@@ -95,3 +95,105 @@ Proof.
   - apply Inv_cut. exact Hi.
 Qed.
 End Frame.
+
+(** stuttering: a sub-program whose effects the monitor ignores leaves the monitor state as it is *)
+Section Stutter.
+Context {S R : Type}.
+Variable step : S -> eff -> answer -> S.
+Variable Q : S -> option R -> Prop.
+Variable boring : eff -> bool.
+Hypothesis boring_step : forall s e a, boring e = true -> step s e a = s.
+
+Lemma holdsK_stutter {A} (p : prog A) s (K : S -> A -> Prop) :
+  only boring p -> Q s None -> (forall a, K s a) -> holdsK step Q p s K.
+Proof.
+  intros Ho Hq HK.
+  apply (holdsK_frame step Q (fun s' => s' = s) boring); auto.
+  - intros s' e a -> He. apply boring_step. exact He.
+  - intros s' ->. exact Hq.
+  - intros s' a ->. apply HK.
+Qed.
+End Stutter.
+
+(** *** Filter monitors: the monitor state is the list of "interesting" events seen so far, so a
+    theorem [judge (filter interesting trace) result = true] speaks about the trace directly. *)
+Section Filter.
+Variable interesting : eff -> bool.
+
+Definition fstep (s : trace) (e : eff) (a : answer) : trace :=
+  if interesting e then s ++ [(e, a)] else s.
+
+Lemma run_fstep tr : forall s,
+  run_monitor fstep s tr = s ++ filter (fun ea => interesting (fst ea)) tr.
+Proof.
+  induction tr as [|[e a] tr IH]; intros s; cbn [run_monitor fold_left filter fst snd].
+  - symmetry. apply app_nil_r.
+  - fold (run_monitor fstep (fstep s e a) tr). rewrite IH. unfold fstep.
+    destruct (interesting e); [rewrite <- app_assoc; reflexivity|reflexivity].
+Qed.
+
+Lemma fstep_boring s e a : negb (interesting e) = true -> fstep s e a = s.
+Proof. unfold fstep. destruct (interesting e); [discriminate|reflexivity]. Qed.
+
+Context {R : Type}.
+Variable Q : trace -> option R -> Prop.
+
+(** a segment with no interesting effect *)
+Lemma holdsK_skip {A} (p : prog A) s (K : trace -> A -> Prop) :
+  only (fun e => negb (interesting e)) p -> Q s None -> (forall a, K s a) -> holdsK fstep Q p s K.
+Proof.
+  intros Ho Hq HK.
+  apply (holdsK_stutter fstep Q (fun e => negb (interesting e))); auto.
+  intros s' e a. apply fstep_boring.
+Qed.
+
+Theorem filter_sound (p : prog R) script :
+  holds fstep Q p [] ->
+  Q (filter (fun ea => interesting (fst ea)) (fst (interp p script))) (snd (interp p script)).
+Proof.
+  intros H. pose proof (holds_sound fstep Q p [] script H) as G.
+  rewrite run_fstep in G. exact G.
+Qed.
+End Filter.
+
+(** *** Derivative form of a filter monitor: the state is the judgement still to be applied to the
+    remaining interesting events.  Equivalent to the filter monitor ([run_dstep]) and convenient for
+    compositional proofs: a lemma about a program suffix is stated for any remaining judgement. *)
+Section Derivative.
+Variable interesting : eff -> bool.
+Context {R : Type}.
+Definition judgement := trace -> option R -> bool.
+
+Definition dstep (jk : judgement) (e : eff) (a : answer) : judgement :=
+  if interesting e then (fun evs res => jk ((e, a) :: evs) res) else jk.
+
+Definition dQ (jk : judgement) (res : option R) : Prop := jk [] res = true.
+
+Lemma run_dstep tr : forall (jk : judgement) evs res,
+  run_monitor dstep jk tr evs res = jk (filter (fun ea => interesting (fst ea)) tr ++ evs) res.
+Proof.
+  induction tr as [|[e a] tr IH]; intros jk evs res; cbn [run_monitor fold_left filter fst snd app].
+  - reflexivity.
+  - fold (run_monitor dstep (dstep jk e a) tr). rewrite IH. unfold dstep.
+    destruct (interesting e); reflexivity.
+Qed.
+
+Lemma dstep_boring jk e a : negb (interesting e) = true -> dstep jk e a = jk.
+Proof. unfold dstep. destruct (interesting e); [discriminate|reflexivity]. Qed.
+
+Lemma holdsK_dskip {A} (p : prog A) jk (K : judgement -> A -> Prop) :
+  only (fun e => negb (interesting e)) p -> dQ jk None -> (forall a, K jk a) -> holdsK dstep dQ p jk K.
+Proof.
+  intros Ho Hq HK.
+  apply (holdsK_stutter dstep dQ (fun e => negb (interesting e))); auto.
+  intros s' e a. apply dstep_boring.
+Qed.
+
+Theorem derivative_sound (J : judgement) (p : prog R) script :
+  holds dstep dQ p J ->
+  J (filter (fun ea => interesting (fst ea)) (fst (interp p script))) (snd (interp p script)) = true.
+Proof.
+  intros H. pose proof (holds_sound dstep dQ p J script H) as G. unfold dQ in G.
+  rewrite run_dstep, app_nil_r in G. exact G.
+Qed.
+End Derivative.
